@@ -89,6 +89,40 @@ def silent_after_handshake_cases(res):
                                    "signature": "C15:silent-tls", "case": {"sent_before_going_silent": payload.decode("latin-1")},
                                    "trace": {"timer_armed": armed, "peer_received": got.decode("latin-1"), "tcp_closed": closed}})
 
+def complete_request_in_records_cases(res):
+    """PyOpenSSL backend: a COMPLETE request that reaches the server as several TLS records inside ONE TCP read (a client that writes
+    the line and the CRLF, or the Titan line and its body, separately; the writes coalesce on the wire), then silence: "a timeout
+    never fires once a complete request has been received" - the request must be answered by the handler, and no request timer
+    may be left pending that would answer 40 later."""
+    from nauyaca.server.protocol import GeminiServerProtocol
+    from nauyaca.protocol.response import GeminiResponse
+    class Up:
+        async def handle_upload(self, r): return GeminiResponse(20, "text/gemini", "stored")
+    async def one(pieces):
+        pair = tlsmem.Pair(lambda: GeminiServerProtocol(lambda r: GeminiResponse(20, "text/plain", "x"), None, Up()))
+        pair.handshake()
+        for piece in pieces: pair.client.send(piece)        # one TLS record per send()
+        pair.to_server()                                    # ... all of them in one TCP read
+        for _ in range(8): await asyncio.sleep(0)
+        ip = pair.server.inner_protocol
+        armed = ip is not None and ip.timeout_handle is not None and not ip.timeout_handle.cancelled()
+        if armed:
+            ip.timeout_handle.cancel(); ip._handle_timeout()          # what the peer would get 30 s later
+        for _ in range(8): await asyncio.sleep(0)
+        got = pair.client_read_all()
+        if hasattr(pair.server, "_cancel_handshake_timer"): pair.server._cancel_handshake_timer()
+        return armed, got, pair.tcp.closed
+    cases = [[b"gemini://localhost/page", b"\r\n"], [b"gemini://localhost/", b"page", b"\r", b"\n"], [b"titan://localhost/f;size=5;mime=text/plain\r\n", b"hello"],
+             [b"titan://localhost/f;size=5;mime=text/plain\r\nhe", b"l", b"lo"], [b"gemini://localhost/page\r\n", b"trailing"]]
+    async def go():
+        return [(c, await one(c)) for c in cases]
+    for pieces, (armed, got, closed) in asyncio.run(go()):
+        res.evaluations += 1; res.nontriv(("records-one-read", tuple(pieces))); res.count("complete-request-in-records")
+        if armed or not got.startswith(b"20 ") or not closed:
+            res.violations.append({"clause": "a timeout never fires once a complete request has been received (the request arrives as several TLS records in one TCP read, PyOpenSSL backend)",
+                                   "signature": "C15:records-one-read", "case": {"tls_records_in_one_tcp_read": [x.decode("latin-1") for x in pieces]},
+                                   "trace": {"request_timer_still_armed_after_the_read": armed, "peer_received": got[:60].decode("latin-1"), "tcp_closed": closed}})
+
 def pump_segmentation_cases(res, rng, tier):
     """the same client ciphertext delivered to TLSServerProtocol in arbitrary pieces (including application data coalesced
     with the last handshake flight): the inner protocol must see the same request and answer identically"""
